@@ -4,6 +4,7 @@ import KyupyVerif.Props.C15Gen
 import KyupyVerif.Proofs.DataPathLanes
 import KyupyVerif.Proofs.DataPathStr
 import KyupyVerif.Proofs.DataPathVal
+import KyupyVerif.Drv.DataPath
 /-! # C15 × C01/C02/C06 — the data path: from PATTERN STRINGS to RESULT STRINGS through `LogicSim`
 
 What a user does:
@@ -438,5 +439,43 @@ example : (demoSeqRun 1).s0.getD 2 [] = [[0x55, 0x05], [0x55, 0x05], [0, 0]] ∧
   decide +kernel
 
 /-! ## what the driver evaluates -/
+
+/-- the bit-parallel op semantics the driver command `dp.run` evaluates (Drv/DataPath.lean) are the ones of the theorems above;
+    for `k = 0` the driver's text is `simStr2/4/8` itself, its bytes `captureB`, for `k ≥ 1` `cycleKB` (the functions of (2), (3)) -/
+theorem envOf_replicate {α} (n : Nat) (d : α) : envOf d (Array.replicate n d) = fun _ => d := by
+  funext i
+  simp only [envOf, Array.getD_eq_getD_getElem?, Array.getElem?_replicate]
+  split <;> rfl
+
+/-- the array form the driver runs (`cycle1BA`, `cycleKBA`: memory = an array of `c_locs_len` entries, fresh: all `dec []` = zero) leaves
+    the same `s[0]`, `s[1]` as the function forms `captureB`, `cycleKB` of the theorems — every well-formed netlist, order, `strip_forks`,
+    arity, op semantics, `k` -/
+theorem driver_array_form {α} (C : Codec α) (sem : Op → List α → α) (net : Net) (order : List Nat) (strip : Bool)
+    (hwf : net.wfB = true) (ho : orderOKB net order = true) (k : Nat) (s0 s1 : List SRow) :
+    let ops := sigOps Gen.kindPrefixes net order strip
+    let T := tabsOf net strip
+    let st0 : StBA α := ⟨Array.replicate net.idx.len (C.dec []), s0, s1⟩
+    (cycle1BA C sem ops T st0).s1 = captureB C sem ops T (fun _ => C.dec []) s0 s1 ∧
+    (cycleKBA C sem ops T k st0).s0 = (cycleKB C sem ops T k ⟨fun _ => C.dec [], s0, s1⟩).s0 ∧
+    (cycleKBA C sem ops T k st0).s1 = (cycleKB C sem ops T k ⟨fun _ => C.dec [], s0, s1⟩).s1 := by
+  intro ops T st0
+  have hb : ∀ op ∈ ops, op.out < net.idx.len := sigOps_out Gen.kindPrefixes net order strip hwf (orderOK_lt ho)
+  have hp : ∀ px ∈ T.pippi, px.2 < net.idx.len := pippi_lt net strip
+  have h0 : toStB C st0 = ⟨fun _ => C.dec [], s0, s1⟩ := by
+    show (⟨envOf (C.dec []) (Array.replicate net.idx.len (C.dec [])), s0, s1⟩ : StB α) = _
+    rw [envOf_replicate]
+  have hsz : st0.env.size = net.idx.len := by simp [st0]
+  have h1 := (cycle1BA_eq C sem ops T st0 (fun op h => hsz ▸ hb op h) (fun px h => hsz ▸ hp px h)).1
+  have hk := cycleKBA_eq C sem ops T net.idx.len hb hp k st0 hsz
+  rw [h0] at h1 hk
+  refine ⟨?_, ?_, ?_⟩
+  · have := congrArg StB.s1 h1
+    exact this
+  · exact congrArg StB.s0 hk
+  · exact congrArg StB.s1 hk
+
+theorem driver_runs_the_model (nb : Nat) :
+    Drv.DataPath.semW2 nb = semW2 nb ∧ Drv.DataPath.semW4 nb = semW4 nb ∧ Drv.DataPath.semW8 nb = semW8 nb :=
+  ⟨rfl, rfl, rfl⟩
 
 end KV.C15
